@@ -102,6 +102,75 @@ def _run_one(i: int) -> tuple[int, Verdict]:
     return i, v
 
 
+def _run_forked(obs, jobs):
+    """One fresh forked child per obligation, forked from the (single-threaded) main thread; verdicts come back through
+    temp files. No state leaks between obligations and no helper thread exists at fork time."""
+    import pickle
+    import shutil
+    import tempfile
+    order = sorted(range(len(obs)), key=lambda i: -obs[i].timeout)
+    pending = list(order)
+    running: dict[int, tuple[int, str, float]] = {}
+    results: dict[int, Verdict] = {}
+    tmpdir = tempfile.mkdtemp(prefix="vt_")
+    T0 = time.time()
+    sys.stdout.flush()
+    sys.stderr.flush()
+    try:
+        while pending or running:
+            while pending and len(running) < jobs:
+                i = pending.pop(0)
+                path = os.path.join(tmpdir, f"{i}.pkl")
+                pid = os.fork()
+                if pid == 0:
+                    code = 0
+                    try:
+                        _, v = _run_one(i)
+                        v.cex, v.replay = jsonable(v.cex), jsonable(v.replay)
+                        with open(path + ".tmp", "wb") as f:
+                            pickle.dump(v, f)
+                        os.replace(path + ".tmp", path)
+                    except BaseException:
+                        code = 1
+                    finally:
+                        os._exit(code)
+                running[pid] = (i, path, time.time())
+            done_any = False
+            for pid in list(running):
+                i, path, t0 = running[pid]
+                try:
+                    rp, status = os.waitpid(pid, os.WNOHANG)
+                except ChildProcessError:
+                    rp, status = pid, 0
+                if rp == 0:
+                    if time.time() - t0 > obs[i].timeout + 60:
+                        try:
+                            os.kill(pid, signal.SIGKILL)
+                        except ProcessLookupError:
+                            pass
+                    continue
+                done_any = True
+                del running[pid]
+                if os.path.exists(path):
+                    try:
+                        with open(path, "rb") as f:
+                            results[i] = pickle.load(f)
+                    except Exception as e:
+                        results[i] = Verdict(ERROR, f"could not read verdict: {e!r}")
+                elif os.WIFSIGNALED(status):
+                    results[i] = Verdict(UNDECIDED, f"worker killed by signal {os.WTERMSIG(status)} (timeout or memory)")
+                else:
+                    results[i] = Verdict(ERROR, f"worker exited with status {status} without a verdict")
+                results[i].wall_s = results[i].wall_s or (time.time() - t0)
+                if os.environ.get("VERIF_VERBOSE"):
+                    print(f"[{time.time()-T0:7.1f}s] {obs[i].id} {results[i].status} {results[i].wall_s:.1f}s", file=sys.stderr, flush=True)
+            if not done_any:
+                time.sleep(0.02)
+    finally:
+        shutil.rmtree(tmpdir, ignore_errors=True)
+    return results
+
+
 def jsonable(x):
     try:
         json.dumps(x)
@@ -148,12 +217,7 @@ def run_property(prop: str, obs: list[Ob], *, tier: str, seed: int, level: str,
         for i in range(len(obs)):
             results[i] = _run_one(i)[1]
     else:
-        ctx = mp.get_context("fork")
-        # one fresh forked process per obligation: no state (assembled classes, patched modules, contexts) leaks between them
-        order = sorted(range(len(obs)), key=lambda i: -obs[i].timeout)
-        with ctx.Pool(processes=min(jobs, len(obs)), maxtasksperchild=1) as pool:
-            for i, v in pool.imap_unordered(_run_one, order, chunksize=1):
-                results[i] = v
+        results = _run_forked(obs, jobs)
 
     known = load_known(prop)
     real = [i for i, o in enumerate(obs) if o.expect == DISCHARGED]
